@@ -451,4 +451,198 @@ theorem resp_retM (g : GName) (sm pm om : TM) :
   have h1 : gnameEq g a.g = gnameEq g b.g := resp_graphSel g a b h
   rw [h1, tripleMatched_resp sm pm om a b h]
 
+/-- the wrapped store's `insert` never fails (std collections: `MutationError = Infallible`) -/
+def NoErr (I : Impl σ) : Prop := ∀ s q, (I.insert s q).2 ≠ none
+
+theorem insertAll_noErr {ins : σ → Quad → σ × MutRes} {f : Quad → Quad} (hins : InsIs I ins f) (hne : NoErr I) :
+    ∀ (ts : List Quad) (s : σ) (c : Nat), bulkOk (Defaults.insertAll ins s ts c).2 = true
+  | [], _, _ => rfl
+  | t :: ts, s, c => by
+    have h1 := hins s t
+    cases hi : I.insert s (f t) with
+    | mk s1 o =>
+      rw [hi] at h1
+      cases o with
+      | none => exact absurd (by rw [hi]) (hne s (f t))
+      | some b =>
+        have h1' : ins s t = (s1, .ok b) := h1
+        rw [defaults_insertAll_ok h1']
+        exact insertAll_noErr hins hne ts s1 _
+
+theorem setImpl_noErr (n : Nat) : NoErr (setImpl n) := by
+  intro s q h
+  cases h
+
+/-! ## vectors: lawful BAGS (multiplicities) -/
+
+/-- number of copies of `x` (modulo `Term::eq`) in a collection -/
+def mult (x : Quad) (l : List Quad) : Nat := (l.filter (quadEq · x)).length
+
+/-- An implementation behaves like a BAG of quads (vectors: repetitions allowed, flags "not significant"):
+`insert` / `remove` of `q` leave the copies of every other quad alone; `insert` leaves at least one copy of `q`
+and loses none; `remove` of a present `q` loses at least one copy (all of them: `Vec<Spog<T>>`, `Vec<[T; 3]>`;
+the first one: `Vec<Gspo<T>>`). -/
+structure LawfulBag {σ : Type} (I : Impl σ) extends LawfulRead I where
+  ins_inv : ∀ {s : σ} (q : Quad), Inv s → (I.n = 3 → q.g = none) → Inv (I.insert s q).1
+  rem_inv : ∀ {s : σ} (q : Quad), Inv s → Inv (I.remove s q).1
+  ins_others : ∀ {s : σ} (q x : Quad), Inv s → quadEq q x = false →
+    mult x (I.quads (I.insert s q).1) = mult x (I.quads s)
+  ins_self : ∀ {s : σ} (q : Quad), Inv s →
+    1 ≤ mult q (I.quads (I.insert s q).1) ∧ mult q (I.quads s) ≤ mult q (I.quads (I.insert s q).1)
+  rem_others : ∀ {s : σ} (q x : Quad), Inv s → quadEq q x = false →
+    mult x (I.quads (I.remove s q).1) = mult x (I.quads s)
+  rem_self : ∀ {s : σ} (q : Quad), Inv s →
+    mult q (I.quads (I.remove s q).1) < mult q (I.quads s) ∨
+      (mult q (I.quads s) = 0 ∧ mult q (I.quads (I.remove s q).1) = 0)
+
+theorem mult_append (x : Quad) (a b : List Quad) : mult x (a ++ b) = mult x a + mult x b := by
+  simp [mult, List.filter_append]
+
+theorem mult_filter_ne (q x : Quad) (h : quadEq q x = false) (l : List Quad) :
+    mult x (l.filter (fun y => !quadEq y q)) = mult x l := by
+  unfold mult
+  rw [List.filter_filter]
+  congr 1
+  apply List.filter_congr
+  intro y _
+  cases hy : quadEq y x with
+  | false => rfl
+  | true =>
+    have : quadEq y q = false := by
+      cases hq : quadEq y q with
+      | false => rfl
+      | true =>
+        have h1 : quadEq q y = true := by rw [quadEq_symm]; exact hq
+        rw [quadEq_trans _ _ _ h1 hy] at h; cases h
+    simp [this]
+
+theorem mult_filter_self (q : Quad) (l : List Quad) : mult q (l.filter (fun y => !quadEq y q)) = 0 := by
+  unfold mult
+  rw [List.filter_filter, List.length_eq_zero_iff, List.filter_eq_nil_iff]
+  intro y _
+  cases quadEq y q <;> simp
+
+theorem mult_eraseP_ne (q x : Quad) (h : quadEq q x = false) : ∀ l : List Quad,
+    mult x (l.eraseP (quadEq · q)) = mult x l
+  | [] => rfl
+  | y :: l => by
+    cases hy : quadEq y q with
+    | true =>
+      rw [List.eraseP_cons_of_pos (by simpa using hy)]
+      have : quadEq y x = false := by
+        cases hx : quadEq y x with
+        | false => rfl
+        | true =>
+          have h1 : quadEq q y = true := by rw [quadEq_symm]; exact hy
+          rw [quadEq_trans _ _ _ h1 hx] at h; cases h
+      simp [mult, this]
+    | false =>
+      rw [List.eraseP_cons_of_neg (by simp [hy])]
+      have ih := mult_eraseP_ne q x h l
+      unfold mult at ih ⊢
+      rw [List.filter_cons, List.filter_cons]
+      cases quadEq y x <;> simp [ih]
+
+theorem mult_eraseP_self (q : Quad) : ∀ l : List Quad, l.any (quadEq · q) = true →
+    mult q (l.eraseP (quadEq · q)) + 1 = mult q l
+  | [], h => by cases h
+  | y :: l, h => by
+    cases hy : quadEq y q with
+    | true =>
+      rw [List.eraseP_cons_of_pos (by simpa using hy)]
+      simp [mult, hy]
+    | false =>
+      rw [List.eraseP_cons_of_neg (by simp [hy])]
+      have h' : l.any (quadEq · q) = true := by simpa [List.any_cons, hy] using h
+      have ih := mult_eraseP_self q l h'
+      unfold mult at ih ⊢
+      rw [List.filter_cons, List.filter_cons, hy]
+      simpa using ih
+
+theorem mult_zero_of_not_any (q : Quad) (l : List Quad) (h : l.any (quadEq · q) = false) : mult q l = 0 := by
+  unfold mult
+  rw [List.length_eq_zero_iff, List.filter_eq_nil_iff]
+  intro y hy
+  have := (List.any_eq_false.1 h) y hy
+  simpa using this
+
+theorem mult_pos_of_any (q : Quad) (l : List Quad) (h : l.any (quadEq · q) = true) : 0 < mult q l := by
+  obtain ⟨y, hy, hq⟩ := List.any_eq_true.1 h
+  unfold mult
+  exact List.length_pos_of_mem (List.mem_filter.2 ⟨hy, hq⟩)
+
+theorem mult_singleton_self (q : Quad) : mult q [q] = 1 := by
+  simp [mult, quadEq_refl]
+
+theorem mult_singleton_ne (q x : Quad) (h : quadEq q x = false) : mult x [q] = 0 := by
+  simp [mult, h]
+
+/-- `Vec<Spog<T>>`, `Vec<[T; 3]>` -/
+def vecLawfulBag (n : Nat) (hn : n = 3 ∨ n = 4) : LawfulBag (vecImpl n) where
+  toLawfulRead := (vecLawful n hn).toLawfulRead
+  ins_inv := (vecLawful n hn).ins_inv
+  rem_inv := (vecLawful n hn).rem_inv
+  ins_others := by
+    intro d q x _ h
+    show mult x (d ++ [q]) = mult x d
+    rw [mult_append, mult_singleton_ne q x h]; rfl
+  ins_self := by
+    intro d q _
+    show 1 ≤ mult q (d ++ [q]) ∧ mult q d ≤ mult q (d ++ [q])
+    rw [mult_append, mult_singleton_self]; omega
+  rem_others := by
+    intro d q x _ h
+    exact mult_filter_ne q x h d
+  rem_self := by
+    intro d q _
+    show mult q (d.filter (fun y => !quadEq y q)) < mult q d ∨ _
+    rw [mult_filter_self]
+    cases hm : mult q d with
+    | zero => exact Or.inr ⟨hm, mult_filter_self q d⟩
+    | succ k => exact Or.inl (Nat.succ_pos k)
+
+/-- `Vec<Gspo<T>>` -/
+def vecFirstLawfulBag (n : Nat) (hn : n = 3 ∨ n = 4) : LawfulBag (vecFirstImpl n) where
+  toLawfulRead := vecFirstLawfulRead n hn
+  ins_inv := by
+    intro d q hI hq h3 x hx
+    have hx' : x ∈ d ++ [q] := hx
+    rcases List.mem_append.1 hx' with hx | hx
+    · exact hI h3 x hx
+    · rw [List.mem_singleton.1 hx]; exact hq h3
+  rem_inv := by
+    intro d q hI h3 x hx
+    have hx' : x ∈ (if d.any (quadEq · q) then (d.eraseP (quadEq · q), true) else (d, false)).1 := hx
+    split at hx'
+    · exact hI h3 x (List.mem_of_mem_eraseP hx')
+    · exact hI h3 x hx'
+  ins_others := by
+    intro d q x _ h
+    show mult x (d ++ [q]) = mult x d
+    rw [mult_append, mult_singleton_ne q x h]; rfl
+  ins_self := by
+    intro d q _
+    show 1 ≤ mult q (d ++ [q]) ∧ mult q d ≤ mult q (d ++ [q])
+    rw [mult_append, mult_singleton_self]; omega
+  rem_others := by
+    intro d q x _ h
+    show mult x (if d.any (quadEq · q) then (d.eraseP (quadEq · q), true) else (d, false)).1 = mult x d
+    split
+    · exact mult_eraseP_ne q x h d
+    · rfl
+  rem_self := by
+    intro d q _
+    show mult q (if d.any (quadEq · q) then (d.eraseP (quadEq · q), true) else (d, false)).1 < mult q d ∨ _
+    cases ha : d.any (quadEq · q) with
+    | true =>
+      simp only [if_true]
+      have := mult_eraseP_self q d ha
+      exact Or.inl (by omega)
+    | false =>
+      simp only [Bool.false_eq_true, if_false]
+      refine Or.inr ⟨mult_zero_of_not_any q d ha, ?_⟩
+      show mult q (if d.any (quadEq · q) then (d.eraseP (quadEq · q), true) else (d, false)).1 = 0
+      rw [ha]
+      exact mult_zero_of_not_any q d ha
+
 end SophiaProofs.AdapterP
